@@ -208,7 +208,7 @@ PROPS = {
         "clauses": ["C07"],
         "modes": [{"name": "srvconc", "harness": "srvconc", "modelcheck": "conc"}],
         "rule": "flushwalk: a Twalk to a new fid is cancelled by the implementation (FlushOp calling req.Flush()) while it executes; only the Rflush arrives, the cancelled new fid is reported destroyed exactly once and its number is free again (the same Twalk sent afterwards reaches the implementation). Tflush arriving at every stage of the target's life: in the same segment as the target (before it starts), while it is blocked in the implementation (with and without FlushOp, implementation agreeing to cancel or not), while the implementation answers concurrently, after the reply, unknown tag, flush of a flush and two flushes of one request, a Tflush naming itself / two naming each other (known finding); Maxpend 0/1/4. Replay of the schedule-point trace through the LTS plus oracle on the real wire: every Tflush answered once, the target's reply never after the Rflush, and when no reply preceded the Rflush the target is not handed to the implementation afterwards. Non-trivial: >= 3 requests; distinct by content.",
-        "level_text": "Coq theorems (Props/C07.v) over the life-cycle LTS, for EVERY reachable state and schedule: if both the flushed request's reply and the Rflush are written the reply comes first; once the Rflush is on the wire without a preceding reply the target is never handed to the implementation afterwards and never answered; a request whose reqFlush bit is set before any goroutine worked on it is never executed, and the flush handler cancels only such requests; every Tflush whose target is an ordinary request is answered exactly once. The unrestricted 'every Tflush is answered' is REFUTED on the faithful model (a Tflush naming its own tag waits for itself), replayed on the real server and recorded as known finding flush-cycle.",
+        "level_text": "Coq theorems (Props/C07.v) over the life-cycle LTS, for EVERY reachable state and schedule: if both the flushed request's reply and the Rflush are written the reply comes first; once the Rflush is on the wire without a preceding reply the target is never handed to the implementation afterwards and never answered; a request whose reqFlush bit is set before any goroutine worked on it is never executed, and the flush handler cancels only such requests; every Tflush whose target is an ordinary request is answered exactly once. The unrestricted 'every Tflush is answered' is REFUTED on the faithful model (a Tflush naming its own tag waits for itself), replayed on the real server and recorded as known finding flush-cycle. A Tflush whose target is itself a Tflush waits for it (it is not cancelled) and is answered exactly once for target chains of any depth; the only flushes left out are those on a cycle of Tflush requests - which is exactly the recorded finding (a Tflush naming itself).",
         "level_note": "Trusted: Coq kernel; extraction + OCaml driver; the Go harness: the translation of the library's schedule points (verifPoint hooks, logged under one mutex inside the library's own critical sections) into LTS labels, the scripted implementation, the fake transport. The LTS over-approximates call/return of nested Respond calls (every real schedule is a schedule of the LTS); mutex atomicity, channel FIFO/rendezvous and goroutine semantics of the Go runtime are assumed; the fid table and message contents are abstracted (C04/C05 and content ids); reply-buffer recycling between requests is exercised by the harness only. Print Assumptions: closed under the global context. Shared-tag targets are outside the quantifier (hypothesis NoGroups).",
     },
     "C08": {
